@@ -83,10 +83,10 @@ func init() {
 			runSpecs(c, c05Specs(c.Quick()))
 			c.Cov["rule_schedules"] = "E1: the resolution of an in-flight melt (quote poll or proof-state check, backend outcome Succeeded or Failed) racing a swap of the same inputs / a melt of them on another quote / a second resolver: every interleaving at MintDB / Lightning call granularity with at most B preemptions (iterative bounding 0..B); oracle per execution: inputs of a paid melt accepted nowhere else, released inputs accepted at most once, quote and inputs follow the outcome after one more poll"
 			if c.Quick() {
-				runSched(c, "C05", []string{"L1-success-poll-vs-swap", "L2-success-check-vs-swap", "L3-success-poll-vs-melt", "L4-failure-poll-vs-swap-swap", "S11-failedmelt-poll-remelt-swap", "S12f-meltfails-remelt-swap"}, 2)
+				runSched(c, "C05", []string{"L1-success-poll-vs-swap", "L2-success-check-vs-swap", "L3-success-poll-vs-melt", "L4-failure-poll-vs-swap-swap", "S10-melt-poll-swap", "S11-failedmelt-poll-remelt-swap", "S12f-meltfails-remelt-swap"}, 2)
 			} else {
 				runSched(c, "C05", []string{"L1-success-poll-vs-swap", "L2-success-check-vs-swap", "L3-success-poll-vs-melt", "L4-failure-poll-vs-swap-swap", "L5-success-poll-vs-check-vs-swap"}, 3)
-				runSched(c, "C05", []string{"S11-failedmelt-poll-remelt-swap", "S12f-meltfails-remelt-swap", "S12n-meltnotfound-remelt-swap"}, 2)
+				runSched(c, "C05", []string{"S10-melt-poll-swap", "S11-failedmelt-poll-remelt-swap", "S12f-meltfails-remelt-swap", "S12n-meltnotfound-remelt-swap"}, 2)
 			}
 		},
 		Worker: dispatchWorker(bfs.Worker(c05All)),
